@@ -16,7 +16,7 @@ fn typ_code(c: &IceCandidate) -> u64 {
 
 pub fn run_cand(run: &mut Run, s: &str, nt: bool) {
     let t = s.to_string();
-    exec(run, "cand", &hex(s.as_bytes()), "IceCandidate::from_sdp", nt, Some((40, 1024, s.len() as u64)), move || match IceCandidate::from_sdp(&t) {
+    exec(run, "cand", &hex(s.as_bytes()), "IceCandidate::from_sdp", nt, None, move || { let r = IceCandidate::from_sdp(&t); super::mark_alloc(); match r {
         Ok(c) => {
             let _ = c.to_sdp();                                     // re-serialising must be total
             let tt = match c.tcp_type { None => 0, Some(x) => match format!("{x:?}").as_str() { "Active" => 1, "Passive" => 2, _ => 3 } };
@@ -24,7 +24,7 @@ pub fn run_cand(run: &mut Run, s: &str, nt: bool) {
                 c.related_address.map_or(0, |a| a.port() as u64 + 1))
         }
         Err(_) => "err e".into(),
-    });
+    } });
 }
 
 fn gen_cand(rng: &mut Rng) -> String {
@@ -145,7 +145,9 @@ fn cfg(mode: u8) -> RtcConfiguration {
     c
 }
 /// remote SDP through the live signaling entry point of a fresh PeerConnection (state `stable`), then an answer attempt
-fn set_remote(l: &LivePc, mode: u8, text: &str) -> &'static str {
+fn set_remote(l: &LivePc, mode: u8, text: &str) -> &'static str { set_remote_mid(l, mode, text).0 }
+/// also returns `next_mid` of the connection afterwards (hook `verif_snapshot`)
+fn set_remote_mid(l: &LivePc, mode: u8, text: &str) -> (&'static str, u16) {
     l.rt.block_on(async {
         let pc = PeerConnection::new(cfg(mode));
         let r = match SessionDescription::parse(SdpType::Offer, text) {
@@ -154,14 +156,107 @@ fn set_remote(l: &LivePc, mode: u8, text: &str) -> &'static str {
                 Ok(Err(_)) => "ret", Err(_) => "timeout" },
             Err(_) => "ret",
         };
+        let nm = pc.verif_snapshot().next_mid;
         pc.close();
-        r
+        (r, nm)
     })
 }
+/// big remote descriptions: `k` media sections (distinct mids), many candidates / rids / ssrc lines, one very long line
+fn big_sdp(rng: &mut Rng, k: usize) -> String {
+    let head: String = TEMPLATE.split("m=audio").next().unwrap().to_string();
+    let mut s = head.replace("a=group:BUNDLE 0 1 2\r\n", "");
+    for i in 0..k {
+        let kind = *rng.pick(&["audio", "video", "application"]);
+        match kind {
+            "application" => s.push_str(&format!("m=application 9 UDP/DTLS/SCTP webrtc-datachannel\r\nc=IN IP4 0.0.0.0\r\na=mid:{i}\r\na=sctp-port:5000\r\n")),
+            _ => {
+                s.push_str(&format!("m={kind} 9 UDP/TLS/RTP/SAVPF 96 97\r\nc=IN IP4 0.0.0.0\r\na=mid:{i}\r\na=sendrecv\r\na=rtcp-mux\r\na=rtpmap:96 {}/90000\r\na=rtpmap:97 rtx/90000\r\na=fmtp:97 apt=96\r\n", if kind == "audio" { "opus" } else { "H264" }));
+                for j in 0..rng.below(4) { s.push_str(&format!("a=rid:{j} send pt=96\r\na=ssrc:{} cname:c\r\na=candidate:{j} 1 udp {} 10.0.{}.{} {} typ host\r\n", 1000 * i + j as usize, rng.below(1 << 31), i % 250, j, 1024 + j)); }
+            }
+        }
+        s.push_str("a=ice-ufrag:abcd\r\na=ice-pwd:0123456789abcdefghijklmn\r\na=fingerprint:sha-256 00:11:22:33:44:55:66:77:88:99:AA:BB:CC:DD:EE:FF:00:11:22:33:44:55:66:77:88:99:AA:BB:CC:DD:EE:FF\r\na=setup:actpass\r\n");
+    }
+    if rng.chance(1, 3) { s.push_str(&format!("a=x-long:{}\r\n", "y".repeat(60_000))); }
+    s
+}
+
+/// Offerer side: our own offer is applied locally, then a (mutated) ANSWER / PRANSWER derived from it arrives
+fn run_sdpanswer(run: &mut Run, live: &LivePc, rng: &mut Rng, nt: bool) {
+    let l = std::panic::AssertUnwindSafe(live);
+    let seed = rng.next();
+    let mut r2 = Rng::new(seed);
+    exec(run, "sdpset", &format!("answer {seed}"), "PeerConnection::set_remote_description(answer)", nt, Some((256, 4 << 20, 4096)), move || {
+        l.rt.block_on(async {
+            let pc = PeerConnection::new(cfg(0));
+            let _ = pc.add_transceiver(rustrtc::MediaKind::Audio, rustrtc::TransceiverDirection::SendRecv);
+            let _ = pc.add_transceiver(rustrtc::MediaKind::Video, rustrtc::TransceiverDirection::SendRecv);
+            let _ = pc.create_data_channel("x", None);
+            if let Ok(offer) = pc.create_offer().await {
+                let text = offer.to_sdp_string();
+                let _ = pc.set_local_description(offer);
+                let ans_text = mutate_sdp(&mut r2, &text.replace("a=setup:actpass", "a=setup:active"));
+                let ty = if r2.chance(1, 4) { SdpType::Pranswer } else { SdpType::Answer };
+                if let Ok(d) = SessionDescription::parse(ty, &ans_text) {
+                    if tokio::time::timeout(std::time::Duration::from_secs(5), pc.set_remote_description(d)).await.is_err() { panic!("set_remote_description(answer) did not return within 5 s"); }
+                    // re-INVITE: a second (mutated) offer on the now-stable connection
+                    let re = mutate_sdp(&mut r2, &text);
+                    if let Ok(d2) = SessionDescription::parse(SdpType::Offer, &re) { let _ = tokio::time::timeout(std::time::Duration::from_secs(5), pc.set_remote_description(d2)).await; }
+                }
+            }
+            pc.close();
+        });
+        "noncompared".into()
+    });
+}
+
+/// SDES (`TransportMode::Srtp`): our offer applied locally, then an answer whose `a=crypto` line is attacker-chosen; the connection
+/// is left to bring its transport up (`setup_sdes` runs in the connection's own task — a panic there is seen by the process-wide counter)
+const SDES_KEYS: [&str; 12] = ["inline:MTIzNDU2Nzg5MDEyMzQ1Njc4OTAxMjM0NTY3ODkw", "inline:MTIzNDU2Nzg5MA==", "inline:", "inline:MTIzNDU2Nzg5MDEyMzQ1Njc4OTAxMjM0NTY3OA==",
+    "inline:MTIzNDU2Nzg5MDEyMzQ1Njc4OTAxMjM0NTY3ODkw|2^20|1:4", "inline:|", "inlin", "inline:MQ==", "inline:!!!!", "inline:MTIzNDU2Nzg5MDEyMzQ1Njc4OTAxMjM0NTY3ODkwMTIzNDU2Nzg5MDEyMzQ1Njc4OTAxMjM0NTY3ODkw",
+    "inline:MTIzNDU2Nzg5MDEyMzQ1Ng==", "inline:é"];
+const SDES_SUITES: [&str; 5] = ["AES_CM_128_HMAC_SHA1_80", "AES_CM_128_HMAC_SHA1_32", "AEAD_AES_128_GCM", "AEAD_AES_256_GCM", "X"];
+fn run_sdpsdes(run: &mut Run, live: &LivePc, key: usize, suite: usize, wait_ms: u64, nt: bool) {
+    let l = std::panic::AssertUnwindSafe(live);
+    UP.with(|u| u.set(false));
+    exec(run, "sdpsdes", &format!("{key} {suite} {wait_ms}"), "PeerConnection::setup_sdes", nt, None, move || {
+        l.rt.block_on(async {
+            let peer = tokio::net::UdpSocket::bind("127.0.0.1:0").await.expect("bind");
+            let port = peer.local_addr().unwrap().port();
+            let mut c = cfg(1); c.bind_ip = Some("127.0.0.1".into()); c.disable_ipv6 = true;
+            let pc = PeerConnection::new(c);
+            let _ = pc.add_transceiver(rustrtc::MediaKind::Audio, rustrtc::TransceiverDirection::SendRecv);
+            let offer = match pc.create_offer().await { Ok(o) => o, Err(_) => { pc.close(); return; } };
+            let text = offer.to_sdp_string();
+            let _ = pc.set_local_description(offer);
+            let mut ans = String::new();
+            for line in text.lines() {
+                if line.starts_with("a=crypto:") { ans.push_str(&format!("a=crypto:1 {} {}\r\n", SDES_SUITES[suite % SDES_SUITES.len()], SDES_KEYS[key % SDES_KEYS.len()])); }
+                else if line.starts_with("m=audio ") { let mut p: Vec<&str> = line.split(' ').collect(); let ps = port.to_string(); p[1] = &ps; ans.push_str(&p.join(" ")); ans.push_str("\r\n"); }
+                else if line.starts_with("c=") { ans.push_str("c=IN IP4 127.0.0.1\r\n"); }
+                else if line.starts_with("a=candidate") {}
+                else { ans.push_str(line); ans.push_str("\r\n"); }
+            }
+            if let Ok(d) = SessionDescription::parse(SdpType::Answer, &ans) {
+                if tokio::time::timeout(std::time::Duration::from_secs(5), pc.set_remote_description(d)).await.is_err() { panic!("set_remote_description(answer) did not return within 5 s"); }
+                let up = pc.wait_for_rtp_transport_ready(std::time::Duration::from_millis(wait_ms)).await.is_ok();
+                UP.with(|u| u.set(up));
+                tokio::time::sleep(std::time::Duration::from_millis(30)).await;
+            }
+            pc.close();
+            tokio::time::sleep(std::time::Duration::from_millis(5)).await;
+        });
+        "noncompared".into()
+    });
+    run.count(&format!("sdpsdes:transport_up:{}", UP.with(|u| u.get())));
+}
+thread_local! { static UP: std::cell::Cell<bool> = const { std::cell::Cell::new(false) }; }
+
 fn run_sdpset(run: &mut Run, live: &LivePc, mode: u8, s: &str, nt: bool) {
     let t = s.to_string();
     let l = std::panic::AssertUnwindSafe(live);
-    exec(run, "sdpset", &format!("{mode} {}", hex(s.as_bytes())), "PeerConnection::set_remote_description", nt, None, move || {
+    // allocation oracle: 2·(256·len + 4 MiB) + 512 — a media section costs a transceiver, receiver, track ring …
+    // (tens of KB), so the constant is large; what it excludes is growth that is super-linear in the description
+    exec(run, "sdpset", &format!("{mode} {}", hex(s.as_bytes())), "PeerConnection::set_remote_description", nt, Some((256, 4 << 20, s.len() as u64)), move || {
         let r = set_remote(&l, mode, &t);
         if r == "timeout" { panic!("set_remote_description did not return within 5 s"); }
         "noncompared".into()
@@ -171,9 +266,9 @@ pub fn run_sdpmid(run: &mut Run, live: &LivePc, mid: &str, nt: bool) {
     let text = TEMPLATE.replace("a=mid:1\r\n", &format!("a=mid:{mid}\r\n")).replace("BUNDLE 0 1 2", &format!("BUNDLE 0 {mid} 2"));
     let l = std::panic::AssertUnwindSafe(live);
     exec(run, "sdpmid", mid, "PeerConnection::set_remote_description", nt, None, move || {
-        let r = set_remote(&l, 0, &text);
+        let (r, nm) = set_remote_mid(&l, 0, &text);
         if r == "timeout" { panic!("set_remote_description did not return within 5 s"); }
-        r.to_string()
+        format!("{r} {nm}")
     });
 }
 
@@ -198,6 +293,16 @@ pub fn special(run: &mut Run, rng: &mut Rng, thorough: bool) {
         let s = mutate_sdp(rng, if sdes { TEMPLATE_SDES } else { TEMPLATE });
         run_sdpset(run, &live, if sdes { rng.range(1, 2) as u8 } else { rng.below(3) as u8 }, &s, true);
     }
+    // large descriptions (many sections / candidates / rids, 60 KB lines) and the answer / re-INVITE paths
+    for k in if thorough { vec![1usize, 8, 64, 300, 1000] } else { vec![1usize, 8, 64, 200] } {
+        let s = big_sdp(rng, k);
+        run_sdpparse(run, &s, true);
+        run_sdpset(run, &live, 0, &s, true);
+        let m = mutate_sdp(rng, &s);
+        run_sdpset(run, &live, rng.below(3) as u8, &m, true);
+    }
+    for _ in 0..(if thorough { 1_500 } else { 60 }) { run_sdpanswer(run, &live, rng, true); }
+    for key in 0..SDES_KEYS.len() { for suite in 0..(if thorough { SDES_SUITES.len() } else { 3 }) { run_sdpsdes(run, &live, key, suite, 400, true); } }
     for _ in 0..(if thorough { 20_000 } else { 800 }) {
         let n = rng.below(200) as usize;
         let s = String::from_utf8_lossy(&rng.bytes(n)).to_string();
@@ -208,6 +313,7 @@ pub fn special(run: &mut Run, rng: &mut Rng, thorough: bool) {
 }
 
 pub fn replay_special(run: &mut Run, stream: &str, a: &[&str]) -> bool {
+    if stream == "sdpsdes" && a.len() == 3 { let p = |s: &str| s.parse::<u64>().unwrap_or(0); let live = LivePc::new(); run_sdpsdes(run, &live, p(a[0]) as usize, p(a[1]) as usize, p(a[2]), true); return true; }
     match (stream, a.len()) {
         ("cand", 1) => { run_cand(run, &String::from_utf8_lossy(&unhex(a[0])), true); true }
         ("sdpmid", 1) => { let l = LivePc::new(); run_sdpmid(run, &l, a[0], true); true }
